@@ -129,7 +129,11 @@ func (requestBody *RequestBody) Validate(ctx context.Context, opts ...Validation
 	}
 
 	if vo := getValidationOptions(ctx); !vo.examplesValidationDisabled {
-		vo.examplesValidationAsReq, vo.examplesValidationAsRes = true, false
+		// examples below are checked as request data: carried by a copy of the options, so that it
+		// holds without caller options too and does not outlive this request body
+		asReq := *vo
+		asReq.examplesValidationAsReq, asReq.examplesValidationAsRes = true, false
+		ctx = context.WithValue(ctx, validationOptionsKey{}, &asReq)
 	}
 
 	if err := requestBody.Content.Validate(ctx); err != nil {
